@@ -17,7 +17,7 @@
 (* (action Evaluate taken twice on the same spec object) lives in MC_C15 / Trace_C15.     *)
 EXTENDS GlomData
 
-CONSTANT RMutant  \* "none" | "init_once" | "first_as_init" | "merge_into_first" | "lazy_extra_level"
+CONSTANT RMutant  \* "none" | "init_once" | "first_as_init" | "merge_into_first" | "lazy_extra_level" | "count_bad_init"
                   \* wrong mechanisms the laws must reject (vacuity check)
 
 \* ================================================================================
@@ -33,12 +33,17 @@ SOk(v)  == [ok |-> TRUE, v |-> v, exc |-> ""]
 SErr(e) == [ok |-> FALSE, v |-> VNone, exc |-> e]
 
 \* numbers: ints and exact multiples of one half (float / Fraction in Python)
-IsNum(v)  == v.k \in {"int", "frac"}
+\* and decimal.Decimal (whole values, [k: "dec", i]), which mixes with ints but not with float / Fraction
+VDec(i)   == [k |-> "dec", i |-> i]
+IsNum(v)  == v.k \in {"int", "frac", "dec"}
+NumCompat(a, b) == ~(a.k = "dec" /\ b.k = "frac") /\ ~(a.k = "frac" /\ b.k = "dec")
 Halves(v) == IF v.k = "int" THEN 2 * v.i ELSE IF v.d = 1 THEN 2 * v.n ELSE v.n
 FromHalves(h, frac) ==
   IF ~frac THEN VInt(h \div 2) ELSE IF h % 2 = 0 THEN VFrac(h \div 2, 1) ELSE VFrac(h, 2)
-NumAdd(a, b)    == FromHalves(Halves(a) + Halves(b), a.k = "frac" \/ b.k = "frac")
-NumDigits(a, b) == FromHalves(Halves(a) * 10 + Halves(b), a.k = "frac" \/ b.k = "frac")
+NumAdd(a, b)    == IF a.k = "dec" \/ b.k = "dec" THEN VDec(a.i + b.i)
+                   ELSE FromHalves(Halves(a) + Halves(b), a.k = "frac" \/ b.k = "frac")
+NumDigits(a, b) == IF a.k = "dec" \/ b.k = "dec" THEN VDec(a.i * 10 + b.i)
+                   ELSE FromHalves(Halves(a) * 10 + Halves(b), a.k = "frac" \/ b.k = "frac")
 
 \* characters of the strings the universes use (TLC cannot index strings): "", "uv" and
 \* one-character strings
@@ -59,7 +64,7 @@ SHashable(v) == IF v.k = "tuple" THEN \A i \in 1..Len(v.items) : SHashable(v.ite
 
 \* a += b   (operator.iadd) and  a + b  (operator.add)
 SPlus(a, b, inplace) ==
-  CASE IsNum(a)      -> IF IsNum(b) THEN SOk(NumAdd(a, b)) ELSE SErr("TypeError")
+  CASE IsNum(a)      -> IF IsNum(b) /\ NumCompat(a, b) THEN SOk(NumAdd(a, b)) ELSE SErr("TypeError")
     [] a.k = "str"   -> IF b.k = "str" THEN SOk(VStr(a.s \o b.s)) ELSE SErr("TypeError")
     [] a.k = "list"  -> IF inplace
                         THEN (IF SIterable(b) THEN SOk(DList(a.items \o SIter(b))) ELSE SErr("TypeError"))
@@ -99,7 +104,7 @@ SKeepFirst(d, v) ==
 SOp(op, a, b) ==
   CASE op = "iadd"      -> SPlus(a, b, TRUE)
     [] op = "add"       -> SPlus(a, b, FALSE)
-    [] op = "digits"    -> IF IsNum(a) /\ IsNum(b) THEN SOk(NumDigits(a, b)) ELSE SErr("TypeError")  \* a * 10 + b
+    [] op = "digits"    -> IF IsNum(a) /\ IsNum(b) /\ NumCompat(a, b) THEN SOk(NumDigits(a, b)) ELSE SErr("TypeError")  \* a * 10 + b
     [] op = "right"     -> SOk(b)                                                                   \* lambda a, b: b
     [] op = "update"    -> SUpdate(a, b)                   \* Merge: op mutates its left argument
     [] op = "keepfirst" -> SKeepFirst(a, b)
@@ -112,6 +117,7 @@ SInit(init) ==
     [] init = "list" -> DList(<<>>)   [] init = "tuple" -> DTuple(<<>>)
     [] init = "dict" -> DDict(<<>>)   [] init = "odict" -> DODict(<<>>)
     [] init = "seeded" -> DList(<<VInt(0)>>)                                    \* lambda: [0]
+    [] init = "dec" -> VDec(0)                                                  \* decimal.Decimal
     [] init = "strx" -> VStr("x")                                               \* lambda: 'x'
     [] init = "tup0" -> DTuple(<<VInt(0)>>)                                     \* lambda: (0,)
     [] init = "lazy" -> DList(<<>>)
@@ -144,6 +150,7 @@ RefOutcome(sp, t) ==
   ELSE
     LET elems == SIter(t) IN
     CASE sp.form \in {"Fold", "Sum", "Merge", "merge"} -> SReduce(sp.op, SInit(sp.init), elems, 1)
+      [] sp.form = "Count" -> SOk(VInt(Len(elems)))                  \* how many values occurred
       [] sp.form = "Flatten" ->
            IF sp.lazy THEN LET r == SChain(elems, 1, <<>>) IN IF r.ok THEN SOk(DList(r.v)) ELSE r
            ELSE SReduce("iadd", SInit(sp.init), elems, 1)
@@ -224,7 +231,8 @@ HKeepFirst(h, d, v) ==
 HOp(h, op, a, b) ==
   CASE op = "iadd"      -> HPlus(h, a, b, TRUE)
     [] op = "add"       -> HPlus(h, a, b, FALSE)
-    [] op = "digits"    -> IF IsNum(a) /\ IsNum(b) THEN HOk(h, NumDigits(a, b), 0) ELSE HErr(h, "TypeError")
+    [] op = "digits"    -> IF IsNum(a) /\ IsNum(b) /\ NumCompat(a, b) THEN HOk(h, NumDigits(a, b), 0) ELSE HErr(h, "TypeError")
+    [] op = "count"     -> HOk(h, VInt(a.i + 1), 0)                    \* Count: lambda cur, val: cur + 1
     [] op = "right"     -> HOk(h, b, 0)
     [] op = "update"    -> HUpdate(h, a, b)
     [] op = "keepfirst" -> HKeepFirst(h, a, b)
@@ -232,7 +240,7 @@ HOp(h, op, a, b) ==
 
 \* init(): scalars, or a freshly allocated container
 HInit(h, init) ==
-  CASE init \in {"int", "float", "half", "five", "str", "strx"} -> [h |-> h, v |-> SInit(init)]
+  CASE init \in {"int", "float", "half", "five", "str", "strx", "dec"} -> [h |-> h, v |-> SInit(init)]
     [] init = "tup0" -> [h |-> Append(h, Cell("tuple", <<VInt(0)>>)), v |-> VRef(NewAddr(h))]
     [] init \in {"list", "lazy"} -> [h |-> Append(h, Cell("list", <<>>)), v |-> VRef(NewAddr(h))]
     [] init = "seeded" -> [h |-> Append(h, Cell("list", <<VInt(0)>>)), v |-> VRef(NewAddr(h))]
@@ -288,6 +296,8 @@ MEval(h, root, sp, persist) ==
   ELSE
     LET elems == HIter(h, t) IN
     CASE sp.form \in {"Fold", "Sum", "Merge"} -> MFold(h, sp.op, sp.init, elems, persist)
+      [] sp.form = "Count" ->                \* Fold(T, init=int, op=lambda cur, val: cur + 1)
+           MFold(h, "count", IF RMutant = "count_bad_init" THEN "five" ELSE "int", elems, persist)
       [] sp.form = "merge" ->              \* Merge(subspec, init, op) is built per call: test_init = init()
            LET m == MFold(h, sp.op, sp.init, elems, persist) IN [m EXCEPT !.inits = @ + 1]
       [] sp.form = "Flatten" ->
